@@ -160,7 +160,16 @@ pub fn is_valid_user_token(token: &String, user_name: &String, db: &Database) ->
 }
 
 pub fn set_connection_counter(db: &Database, dbs: &Arc<Databases>) -> Response {
-    let value = db.connections_count().to_string();
+    // The counter stays locked while the key is written: when two sessions come or go at the same
+    // time each one publishes the count that is current at that moment, so the last value
+    // published is the real count.
+    let connections = db
+        .connections
+        .write()
+        .expect("Error getting the db.connections.lock to publish");
+    let value = connections
+        .load(std::sync::atomic::Ordering::Relaxed)
+        .to_string();
     return set_key_value(CONNECTIONS_KEY.to_string(), value, -1, db, &dbs);
 }
 
